@@ -459,7 +459,7 @@ def general_program(draw, cfg, max_steps=30, extra=(), disable=()):
             if free and zhi > zlo:
                 s0 = d(st.integers(zlo, zhi))
                 e0 = d(st.integers(s0, min(zhi, s0 + d(st.sampled_from([0, 1, 7, 31, 255])))))
-                nots = ['dec', 'hex$', 'hex0x']
+                nots = ['dec', 'hex$', 'hex0x', 'hexH', 'bin%']
                 b.add({'t': 'createzone', 'name': free[0], 'start': s0, 'end': e0,
                        'start_text': exprs.render_num(s0, d(st.sampled_from(nots))),
                        'end_text': exprs.render_num(e0, d(st.sampled_from(nots)))})
